@@ -501,3 +501,82 @@ def _is_static_cond(f, cond):
         if st.get("k") == "if" and st.get("constexpr") and st.get("c") is cond:
             return True
     return False
+
+
+# ---- TIE-ELEM: which of several equivalent elements the *_element algorithms return ---------------------------------
+ELEMENT_SPEC = {
+    # holder role -> set of orderings ord(*candidate, *holder) in which the holder must be replaced
+    "min_element": [("single", {"<"})],                       # first smallest
+    "max_element": [("single", {">"})],                       # first largest
+    "minmax_element": [("first", {"<"}), ("second", {">", "="})],   # first smallest, last largest
+}
+
+
+def check_extremes(f):
+    """For every assignment `holder = cursor` of an extreme holder: the controlling tests that compare *cursor with *holder
+    hold exactly in the orderings in which the standard replaces the holder. Returns list of (holder, node, ordering, got,
+    want) problems, or None when the function is not one of the *_element algorithms / has no comparator parameter."""
+    spec = ELEMENT_SPEC.get(f["n"])
+    cmp_params = functor_params(f)
+    if spec is None or not cmp_params or f.get("body") is None:
+        return None
+    from . import sets as SR
+    # holders: locals returned
+    rets = [st for st in astx.walk_stmts(f["body"]) if st.get("k") == "return" and st.get("e") is not None]
+    holders = {}
+    for r in rets:
+        e = astx.strip_casts(r["e"])
+        if e is None:
+            continue
+        if e.get("k") == "ref" and e.get("d") == "local":
+            holders[e["n"]] = "single"
+        elif e.get("k") in ("initlist", "construct", "call"):
+            args = e.get("a", [])
+            if len(args) == 1 and args[0] is not None and args[0].get("k") == "initlist":
+                args = args[0]["a"]
+            if len(args) == 2:
+                for a, role in zip(args, ("first", "second")):
+                    n = ref_name(a)
+                    if n:
+                        holders.setdefault(n, role)
+    want = dict(spec)
+    problems = []
+    instances = 0
+
+    def walk(st, conds):
+        nonlocal instances
+        if st is None:
+            return
+        k = st.get("k")
+        if k == "seq":
+            for c in st["s"]:
+                walk(c, conds)
+        elif k == "if":
+            walk(st.get("then"), conds + [(st["c"], True)])
+            if st.get("else"):
+                walk(st.get("else"), conds + [(st["c"], False)])
+        elif k in ("for", "while", "do"):
+            walk(st.get("body"), conds)
+        elif k == "expr":
+            e = st["e"]
+            if e.get("k") == "bin" and e["op"] == "=":
+                h, c = ref_name(e["l"]), ref_name(e["r"])
+                if h in holders and c and holders[h] in want:
+                    rel = [(cd, tk) for cd, tk in conds if SR.mentions(cd, {h}) and SR.mentions(cd, {c})]
+                    if not rel:
+                        return
+                    instances += 1
+                    for o in "<=>":
+                        vals = []
+                        for cd, tk in rel:
+                            t = SR.pred_truth(cd, {c}, {h}, set(cmp_params), o)
+                            vals.append(None if t is None else (t == tk))
+                        if None in vals:
+                            return
+                        got = all(vals)
+                        need = o in want[holders[h]]
+                        if got != need:
+                            problems.append((h, e, o, got, need))
+
+    walk(f["body"], [])
+    return problems, instances
